@@ -716,7 +716,23 @@ func enumRestart(yield func(RCase) bool) {
 
 func TestC06Restart(t *testing.T) {
 	vh.Run(t, vh.Spec[RCase]{
-		Name: "reattach", Gen: genRestart, Run: runRestart, Quick: 150, Thorough: 3000, Enum: enumRestart, EnumSharded: true,
+		Name: "reattach", Gen: genRestart, Run: runRestartForProperty, Quick: 150, Thorough: 3000, Enum: enumRestart, EnumSharded: true,
 		Rule: "two generations of the real agent core (run.Loader, obykeyset.Config.StartOrchestrator, real pipelines and hybrid buffers, 1-2 outputs) on one buffer root: generation 1 receives records of 1-5 key tuples (alphabet incl. '', separators, NUL, newline, invalid UTF-8; arbitrary bytes) with stalled consumers under umask 022/027/077/002/007, generation 2 starts with no input (in a third of the cases after files, directories without / with an empty / unreadable .id and a dangling link were put into the buffer roots); oracle = every record is in a queue file under its own tag, no directory shared between tuples, one pipeline per queue with chunks is created synchronously at start-up, every queued chunk is delivered once and byte-identical, one pipeline serves one tuple, and a record sent after the restart goes through the very pipeline consumer that recovered the queue of its tuple (new tuple: a pipeline of its own); every case is non-trivial",
 	})
+}
+
+// runRestartForProperty: ./check C17 runs this layer too. A successful reload starts the new pipeline set exactly as a
+// restart does (the reloader's completion function calls the same StartOrchestrator, which lists the queue directories and
+// re-creates one pipeline per stored ID), so "queued chunks of the old pipelines are taken over" is decided here for key
+// tuples the end-to-end reload layer does not have (empty values, separators, arbitrary bytes). Only that verdict is
+// C17's business; the comma cases (known findings of C06) are C06's.
+func runRestartForProperty(c RCase) vh.Result {
+	res := runRestart(c)
+	if vh.PropertyID == "C17" && res.Violation != nil && res.Violation.Key != "route:not-reattached-at-startup" {
+		res.Violation = nil
+	}
+	if vh.PropertyID == "C17" {
+		res.Known = nil
+	}
+	return res
 }
